@@ -1,6 +1,607 @@
 package main
 
-func propIDs() []string { return nil }
-func cmdCheck(args []string) int    { return 2 }
-func cmdReplay(args []string) int   { return 2 }
-func cmdSelftest(args []string) int { return 2 }
+import (
+	"bufio"
+	"crypto/sha256"
+	"encoding/json"
+	"flag"
+	"fmt"
+	"os"
+	"os/exec"
+	"path/filepath"
+	"runtime"
+	"sort"
+	"strconv"
+	"strings"
+	"time"
+)
+
+// Prop describes how one property is decided.
+type Prop struct {
+	ID          string
+	Jobs        func(tier string) []Job
+	Bounds      func(tier string) map[string]string
+	Assumptions []string
+	Outside     []string // explicitly outside the claim
+	Technique   string
+}
+
+var props = map[string]*Prop{}
+
+func register(p *Prop) { props[p.ID] = p }
+
+func propIDs() []string {
+	var ids []string
+	for id := range props {
+		ids = append(ids, id)
+	}
+	sort.Strings(ids)
+	return ids
+}
+
+// ---------------------------------------------------------------- known findings
+
+type knownFinding struct {
+	status string // known / fixed
+	prop   string
+	key    string
+	text   string
+}
+
+func loadKnown() []knownFinding {
+	f, err := os.Open(filepath.Join(verifDir, "known_findings.txt"))
+	if err != nil {
+		return nil
+	}
+	defer f.Close()
+	var out []knownFinding
+	sc := bufio.NewScanner(f)
+	sc.Buffer(make([]byte, 1<<20), 1<<20)
+	for sc.Scan() {
+		l := strings.TrimSpace(sc.Text())
+		if l == "" || strings.HasPrefix(l, "#") {
+			continue
+		}
+		// known: property=C01 key=<key> :: text      |  fixed: property=C01 <commit> key=<key> :: text
+		var kf knownFinding
+		switch {
+		case strings.HasPrefix(l, "known:"):
+			kf.status = "known"
+			l = strings.TrimSpace(strings.TrimPrefix(l, "known:"))
+		case strings.HasPrefix(l, "fixed:"):
+			kf.status = "fixed"
+			l = strings.TrimSpace(strings.TrimPrefix(l, "fixed:"))
+		default:
+			continue
+		}
+		parts := strings.SplitN(l, " :: ", 2)
+		if len(parts) == 2 {
+			kf.text = parts[1]
+		}
+		head := parts[0]
+		if i := strings.Index(head, "key="); i >= 0 {
+			kf.key = strings.TrimSpace(head[i+4:])
+			head = head[:i]
+		}
+		for _, f := range strings.Fields(head) {
+			if strings.HasPrefix(f, "property=") {
+				kf.prop = strings.TrimPrefix(f, "property=")
+			}
+		}
+		out = append(out, kf)
+	}
+	return out
+}
+
+// ---------------------------------------------------------------- replay
+
+type replayCase struct {
+	Prop    string  `json:"property"`
+	Pkg     string  `json:"pkg"`
+	Func    string  `json:"func"`
+	Args    []int64 `json:"args"`
+	Kind    string  `json:"kind"`
+	Key     string  `json:"key"`
+	Expect  string  `json:"expect"` // PANIC / ASSERT:<id> / HANG
+	Ints    []uint64 `json:"tape_ints"`
+	Bytes   []string `json:"tape_bytes"` // hex
+	Clamp   bool     `json:"clamp_cap"`
+	Where   string   `json:"where"`
+}
+
+func expectFor(f Finding) string {
+	switch f.Kind {
+	case "assert":
+		id := f.Expr
+		if i := strings.Index(id, ":"); i >= 0 && strings.Contains(id, " ") {
+			id = id[:i]
+		}
+		return "ASSERT:" + id
+	case "non-termination", "blocks-forever", "self-deadlock":
+		return "HANG"
+	}
+	return "PANIC"
+}
+
+func buildReplayCase(prop string, f Finding) *replayCase {
+	if f.Model == nil {
+		return nil
+	}
+	rc := &replayCase{Prop: prop, Pkg: f.Job.Pkg, Func: f.Job.Func, Args: f.Job.Args, Kind: f.Kind, Key: f.Key, Expect: expectFor(f), Where: f.Func + " " + f.Pos}
+	rc.Clamp = f.Kind == "reslice-beyond-length"
+	n := 0
+	for _, in := range f.Inputs {
+		if in.Seq+1 > n {
+			n = in.Seq + 1
+		}
+	}
+	rc.Ints = make([]uint64, n)
+	rc.Bytes = make([]string, n)
+	for _, in := range f.Inputs {
+		if in.Seq < 0 {
+			continue
+		}
+		switch in.Kind {
+		case "int", "bool":
+			rc.Ints[in.Seq] = f.Model.Vars[in.Name]
+		case "const":
+			rc.Ints[in.Seq] = in.Val
+		case "bytes":
+			b := make([]byte, in.N)
+			for i := range b {
+				b[i] = f.Model.Arr[in.Name][uint64(i)]
+			}
+			rc.Bytes[in.Seq] = fmt.Sprintf("%x", b)
+		}
+	}
+	return rc
+}
+
+func pkgDirOf(pkg string) string {
+	if pkg == "root" || pkg == "" {
+		return ""
+	}
+	return pkg
+}
+
+// writeReplay stores the case under /verif/replay/<prop>/<n>/ and returns the path of case.json.
+func writeReplay(rc *replayCase, n int) (string, error) {
+	dir := filepath.Join(verifDir, "replay", rc.Prop, fmt.Sprintf("case%03d", n))
+	if err := os.MkdirAll(dir, 0o755); err != nil {
+		return "", err
+	}
+	b, _ := json.MarshalIndent(rc, "", " ")
+	p := filepath.Join(dir, "case.json")
+	return p, os.WriteFile(p, b, 0o644)
+}
+
+// runReplay executes a replay case natively against /repo (go test -overlay); returns the observed outcome.
+func runReplay(casePath string) (string, string, error) {
+	b, err := os.ReadFile(casePath)
+	if err != nil {
+		return "", "", err
+	}
+	var rc replayCase
+	if err := json.Unmarshal(b, &rc); err != nil {
+		return "", "", err
+	}
+	dir := filepath.Dir(casePath)
+	pkgName := "packet"
+	if rc.Pkg != "root" && rc.Pkg != "" {
+		pkgName = filepath.Base(rc.Pkg)
+	}
+	var sb strings.Builder
+	fmt.Fprintf(&sb, "package %s\n\nimport (\n\t\"encoding/hex\"\n\t\"fmt\"\n\t\"strings\"\n\t\"testing\"\n\t\"time\"\n)\n\n", pkgName)
+	sb.WriteString("func TestVerifReplay(t *testing.T) {\n")
+	sb.WriteString("\tverifTapeInts = []uint64{")
+	for _, v := range rc.Ints {
+		fmt.Fprintf(&sb, "%d, ", v)
+	}
+	sb.WriteString("}\n\tfor _, h := range []string{")
+	for _, h := range rc.Bytes {
+		fmt.Fprintf(&sb, "%q, ", h)
+	}
+	sb.WriteString("} {\n\t\tb, _ := hex.DecodeString(h)\n\t\tverifTapeBytes = append(verifTapeBytes, b)\n\t}\n")
+	fmt.Fprintf(&sb, "\tverifClampCap = %v\n", rc.Clamp)
+	sb.WriteString("\tdone := make(chan string, 1)\n\tgo func() {\n\t\tdefer func() {\n\t\t\tif r := recover(); r != nil {\n\t\t\t\tif _, ok := r.(verifAssumption); ok {\n\t\t\t\t\tdone <- \"ASSUME\"\n\t\t\t\t\treturn\n\t\t\t\t}\n\t\t\t\tdone <- fmt.Sprintf(\"PANIC: %v\", r)\n\t\t\t\treturn\n\t\t\t}\n\t\t\tif len(verifFailures) > 0 {\n\t\t\t\tdone <- \"ASSERT:\" + strings.Join(verifFailures, \",\")\n\t\t\t\treturn\n\t\t\t}\n\t\t\tdone <- \"OK\"\n\t\t}()\n")
+	var args []string
+	for _, a := range rc.Args {
+		args = append(args, strconv.FormatInt(a, 10))
+	}
+	fmt.Fprintf(&sb, "\t\t%s(%s)\n\t}()\n", rc.Func, strings.Join(args, ", "))
+	sb.WriteString("\tselect {\n\tcase r := <-done:\n\t\tfmt.Println(\"VERIF-REPLAY-RESULT\", r)\n\tcase <-time.After(5 * time.Second):\n\t\tfmt.Println(\"VERIF-REPLAY-RESULT HANG\")\n\t}\n}\n")
+	testFile := filepath.Join(dir, "replay_test.go")
+	if err := os.WriteFile(testFile, []byte(sb.String()), 0o644); err != nil {
+		return "", "", err
+	}
+	// overlay: harness files of that package + generated + the test
+	ov := map[string]string{}
+	for _, hd := range []string{filepath.Join(verifDir, "harness"), filepath.Join(verifDir, ".gen")} {
+		m, _ := harnessOverlayPaths(hd)
+		for virt, real := range m {
+			ov[virt] = real
+		}
+	}
+	pdir := pkgDirOf(rc.Pkg)
+	ov[filepath.Join(repoDir, pdir, "zz_verif_replay_test.go")] = testFile
+	ovb, _ := json.Marshal(map[string]interface{}{"Replace": ov})
+	ovFile := filepath.Join(dir, "overlay.json")
+	os.WriteFile(ovFile, ovb, 0o644)
+	target := "./" + pdir
+	if pdir == "" {
+		target = "."
+	}
+	cmd := exec.Command("go", "test", "-v", "-count=1", "-vet=off", "-overlay", ovFile, "-run", "^TestVerifReplay$", "-timeout", "60s", target)
+	cmd.Dir = repoDir
+	cmd.Env = append(os.Environ(), "GOFLAGS=-mod=mod", "GOPROXY=off", "GOSUMDB=off", "GOTOOLCHAIN=local")
+	out, _ := cmd.CombinedOutput()
+	res := "NORESULT"
+	for _, l := range strings.Split(string(out), "\n") {
+		if strings.HasPrefix(l, "VERIF-REPLAY-RESULT ") {
+			res = strings.TrimPrefix(l, "VERIF-REPLAY-RESULT ")
+		}
+	}
+	if res == "NORESULT" && strings.Contains(string(out), "panic:") {
+		res = "PANIC: (test binary crashed)"
+	}
+	return res, string(out), nil
+}
+
+func harnessOverlayPaths(harnessDir string) (map[string]string, error) {
+	ov := map[string]string{}
+	err := filepath.Walk(harnessDir, func(p string, info os.FileInfo, err error) error {
+		if err != nil {
+			return nil
+		}
+		if info.IsDir() || !strings.HasSuffix(p, ".go") {
+			return nil
+		}
+		rel, _ := filepath.Rel(harnessDir, p)
+		dir := filepath.Dir(rel)
+		if strings.HasPrefix(dir, "root") {
+			dir = strings.TrimPrefix(strings.TrimPrefix(dir, "root"), "/")
+		}
+		ov[filepath.Join(repoDir, dir, "zz_verif_"+filepath.Base(p))] = p
+		return nil
+	})
+	return ov, err
+}
+
+func replayMatches(expect, got string) bool {
+	switch {
+	case expect == "PANIC":
+		return strings.HasPrefix(got, "PANIC")
+	case expect == "HANG":
+		return got == "HANG"
+	case strings.HasPrefix(expect, "ASSERT:"):
+		id := strings.TrimPrefix(expect, "ASSERT:")
+		return strings.HasPrefix(got, "ASSERT:") && strings.Contains(got, id)
+	}
+	return false
+}
+
+func cmdReplay(args []string) int {
+	if len(args) < 1 {
+		fmt.Fprintln(os.Stderr, "replay <path to case.json>")
+		return 2
+	}
+	if err := writeGenerated(filepath.Join(verifDir, ".gen")); err != nil {
+		fmt.Fprintln(os.Stderr, err)
+		return 2
+	}
+	got, out, err := runReplay(args[0])
+	if err != nil {
+		fmt.Fprintln(os.Stderr, err)
+		return 2
+	}
+	b, _ := os.ReadFile(args[0])
+	var rc replayCase
+	json.Unmarshal(b, &rc)
+	fmt.Printf("expected %s, observed %s\n", rc.Expect, got)
+	if os.Getenv("GSE_VERBOSE") != "" {
+		fmt.Println(out)
+	}
+	if replayMatches(rc.Expect, got) {
+		fmt.Printf("VIOLATION property=%s replay=%s\n", rc.Prop, args[0])
+		return 1
+	}
+	return 0
+}
+
+// ---------------------------------------------------------------- check
+
+type evidence struct {
+	PropertyID  string                 `json:"property_id"`
+	Tier        string                 `json:"tier"`
+	Seed        int                    `json:"seed"`
+	Level       string                 `json:"level"`
+	Coverage    map[string]interface{} `json:"coverage"`
+	Assumptions []string               `json:"assumptions"`
+	WallS       float64                `json:"wall_s"`
+	Violations  int                    `json:"violations"`
+}
+
+func repoHash() string {
+	h := sha256.New()
+	filepath.Walk(repoDir, func(p string, info os.FileInfo, err error) error {
+		if err != nil || info.IsDir() {
+			if info != nil && info.IsDir() && (info.Name() == ".git" || info.Name() == "examples") {
+				return filepath.SkipDir
+			}
+			return nil
+		}
+		if strings.HasSuffix(p, ".go") && !strings.HasSuffix(p, "_test.go") {
+			b, _ := os.ReadFile(p)
+			h.Write([]byte(p))
+			h.Write(b)
+		}
+		return nil
+	})
+	return fmt.Sprintf("%x", h.Sum(nil))[:16]
+}
+
+func cmdCheck(args []string) int {
+	fs := flag.NewFlagSet("check", flag.ExitOnError)
+	tier := fs.String("tier", "", "quick|thorough")
+	workers := fs.Int("j", 0, "workers")
+	var id string
+	if len(args) > 0 && !strings.HasPrefix(args[0], "-") {
+		id = args[0]
+		args = args[1:]
+	}
+	fs.Parse(args)
+	if id == "" && fs.NArg() > 0 {
+		id = fs.Arg(0)
+	}
+	if *tier == "" {
+		*tier = os.Getenv("VERIF_TIER")
+	}
+	if *tier == "" {
+		*tier = "quick"
+	}
+	p := props[id]
+	if p == nil {
+		fmt.Fprintf(os.Stderr, "unknown property %q (have %v)\n", id, propIDs())
+		return 2
+	}
+	seed, _ := strconv.Atoi(os.Getenv("VERIF_SEED"))
+	if *workers == 0 {
+		*workers = runtime.NumCPU()
+		if *workers > 16 {
+			*workers = 16
+		}
+	}
+	t0 := time.Now()
+	ld, err := Load(filepath.Join(verifDir, "harness"))
+	if err != nil {
+		fmt.Fprintln(os.Stderr, "load:", err)
+		return 2
+	}
+	loadS := time.Since(t0).Seconds()
+	jobs := p.Jobs(*tier)
+	results := runJobs(ld, jobs, *workers)
+
+	known := loadKnown()
+	isKnown := func(key string) *knownFinding {
+		for i := range known {
+			if known[i].status == "known" && known[i].prop == id && known[i].key == key {
+				return &known[i]
+			}
+		}
+		return nil
+	}
+	// aggregate
+	var paths, dead, oblig, disch, decisions, queries int
+	var solverT time.Duration
+	perSolver := map[string]float64{}
+	funcs := map[string]bool{}
+	stubs := map[string]int{}
+	var inconc []string
+	var errs []string
+	var samples []interface{}
+	reach := map[string]int{}
+	findings := map[string]Finding{}
+	var order []string
+	for _, r := range results {
+		paths += r.Paths
+		dead += r.Dead
+		oblig += r.Oblig
+		disch += r.Disch
+		decisions += r.Decisions
+		queries += r.Stats.Queries
+		solverT += r.Stats.Time
+		for k, v := range r.Stats.PerSolver {
+			perSolver[k] += v.Seconds()
+		}
+		for _, f := range r.Funcs {
+			funcs[f] = true
+		}
+		for k, v := range r.Stubs {
+			stubs[k] += v
+		}
+		inconc = append(inconc, r.Inconc...)
+		if r.Err != "" {
+			errs = append(errs, r.Job.Name()+": "+r.Err)
+		}
+		for _, s := range r.Samples {
+			if len(samples) < 6 {
+				s["harness"] = r.Job.Name()
+				samples = append(samples, s)
+			}
+		}
+		for k, v := range r.Reach {
+			reach[r.Job.Func+":"+k] += v
+		}
+		for _, f := range r.Findings {
+			if _, ok := findings[f.Key]; !ok {
+				findings[f.Key] = f
+				order = append(order, f.Key)
+			}
+		}
+	}
+	sort.Strings(order)
+	// vacuity guards
+	var vacuity []string
+	for _, j := range jobs {
+		for _, m := range j.Reach {
+			if reach[j.Func+":"+m] == 0 {
+				vacuity = append(vacuity, fmt.Sprintf("%s never reached marker %q", j.Func, m))
+			}
+		}
+	}
+	violations := 0
+	knownHits := 0
+	replayed := 0
+	unconfirmed := 0
+	var vioLines []string
+	var findingList []map[string]string
+	caseN := 0
+	os.RemoveAll(filepath.Join(verifDir, "replay", id))
+	for _, key := range order {
+		f := findings[key]
+		if f.Job.Twin {
+			continue
+		}
+		entry := map[string]string{"key": key, "kind": f.Kind, "func": f.Func, "at": f.Pos, "harness": f.Harness}
+		if kf := isKnown(key); kf != nil {
+			knownHits++
+			fmt.Printf("KNOWN-FINDING: property=%s %s [%s]\n", id, kf.text, key)
+			entry["status"] = "known"
+			findingList = append(findingList, entry)
+			continue
+		}
+		rc := buildReplayCase(id, f)
+		if rc == nil {
+			unconfirmed++
+			entry["status"] = "unconfirmed (no model)"
+			findingList = append(findingList, entry)
+			fmt.Printf("UNCONFIRMED: property=%s %s\n", id, key)
+			continue
+		}
+		caseN++
+		path, err := writeReplay(rc, caseN)
+		if err != nil {
+			fmt.Fprintln(os.Stderr, err)
+			continue
+		}
+		got, _, err := runReplay(path)
+		replayed++
+		if err == nil && replayMatches(rc.Expect, got) {
+			violations++
+			entry["status"] = "violation (replayed natively: " + got + ")"
+			vioLines = append(vioLines, fmt.Sprintf("VIOLATION property=%s replay=%s", id, path))
+			fmt.Printf("VIOLATION property=%s replay=%s\n", id, path)
+			fmt.Printf("  finding: %s\n  native outcome: %s\n", key, got)
+			if os.Getenv("GSE_EMIT_KNOWN") != "" {
+				fmt.Printf("SUGGEST known: property=%s key=%s :: %s in %s (%s); native: %s\n", id, key, f.Kind, strings.ReplaceAll(f.Func, modPath, "packet"), f.Pos, got)
+			}
+		} else {
+			unconfirmed++
+			entry["status"] = "unconfirmed (expected " + rc.Expect + ", native run gave " + got + ")"
+			fmt.Printf("UNCONFIRMED: property=%s %s (expected %s, native %s) replay=%s\n", id, key, rc.Expect, got, path)
+		}
+		findingList = append(findingList, entry)
+	}
+	// twins: every twin job must have produced its "twin" violation
+	twinsOK, twins := 0, 0
+	for _, r := range results {
+		if r.Job.Twin {
+			twins++
+			for _, f := range r.Findings {
+				if f.Kind == "assert" && strings.HasPrefix(f.Expr, "twin") {
+					twinsOK++
+					break
+				}
+			}
+		}
+	}
+	if twins != twinsOK {
+		vacuity = append(vacuity, fmt.Sprintf("%d of %d reachability twins did not reach their final assertion", twins-twinsOK, twins))
+	}
+	inconcSet := map[string]int{}
+	for _, s := range inconc {
+		inconcSet[s]++
+	}
+	var inconcList []string
+	for s, n := range inconcSet {
+		inconcList = append(inconcList, fmt.Sprintf("x%d %s", n, s))
+	}
+	sort.Strings(inconcList)
+	for _, s := range inconcList {
+		fmt.Printf("INCONCLUSIVE: %s\n", s)
+	}
+	for _, s := range errs {
+		fmt.Printf("ENGINE-ERROR: %s\n", s)
+	}
+	for _, s := range vacuity {
+		fmt.Printf("VACUITY: %s\n", s)
+	}
+	var fl []string
+	for f := range funcs {
+		if strings.Contains(f, modPath) && !strings.Contains(f, ".Verif") && !strings.Contains(f, ".verif") {
+			fl = append(fl, strings.ReplaceAll(f, modPath, "packet"))
+		}
+	}
+	sort.Strings(fl)
+	var stubList []string
+	for k, v := range stubs {
+		stubList = append(stubList, fmt.Sprintf("%s x%d", k, v))
+	}
+	sort.Strings(stubList)
+	var jobNames []string
+	for _, r := range results {
+		jobNames = append(jobNames, fmt.Sprintf("%s: paths=%d dead=%d obligations=%d/%d queries=%d wall=%.1fs", r.Job.Name(), r.Paths, r.Dead, r.Disch, r.Oblig, r.Stats.Queries, r.Wall))
+	}
+	if len(samples) == 0 {
+		samples = append(samples, map[string]interface{}{"note": "no symbolic-input path sample recorded", "jobs": len(results)})
+	}
+	wall := time.Since(t0).Seconds()
+	ev := evidence{PropertyID: id, Tier: *tier, Seed: seed, Level: "model_checking", WallS: wall, Violations: violations}
+	ev.Assumptions = append([]string{}, p.Assumptions...)
+	for _, o := range p.Outside {
+		ev.Assumptions = append(ev.Assumptions, "outside the claim: "+o)
+	}
+	ev.Coverage = map[string]interface{}{
+		"states":                        paths + dead,
+		"transitions":                   decisions + 1,
+		"traces_validated_against_impl": replayed,
+		"samples":                       samples,
+		"paths_completed":               paths,
+		"paths_abandoned":               dead,
+		"obligations":                   oblig,
+		"discharged":                    disch,
+		"undischarged_inconclusive":     inconcList,
+		"engine_errors":                 errs,
+		"vacuity_guard_failures":        vacuity,
+		"solver_queries":                queries,
+		"solver_time_s":                 solverT.Seconds(),
+		"solver_time_by_backend_s":      perSolver,
+		"functions_encoded":             fl,
+		"functions_encoded_count":       len(funcs),
+		"stubs_and_intrinsics_hit":      stubList,
+		"bounds":                        p.Bounds(*tier),
+		"jobs":                          jobNames,
+		"findings":                      findingList,
+		"known_findings_matched":        knownHits,
+		"counterexamples_unconfirmed":   unconfirmed,
+		"reachability_twins":            fmt.Sprintf("%d/%d violated as required", twinsOK, twins),
+		"reach_markers":                 reach,
+		"repo_source_hash":              repoHash(),
+		"load_and_ssa_build_s":          loadS,
+		"technique":                     p.Technique,
+		"explanation":                   "bounded symbolic execution of the real go/ssa of /repo; every branch, panic condition, assertion and loop-state repetition is an SMT query (z3/cvc5); 'states' = explored paths, 'transitions' = solver-decided branch decisions",
+	}
+	os.MkdirAll(filepath.Join(verifDir, "evidence"), 0o755)
+	b, _ := json.MarshalIndent(ev, "", " ")
+	if err := os.WriteFile(filepath.Join(verifDir, "evidence", id+".json"), b, 0o644); err != nil {
+		fmt.Fprintln(os.Stderr, err)
+	}
+	fmt.Printf("%s tier=%s: %d jobs, %d paths, %d/%d obligations discharged, %d known findings, %d violations, %d unconfirmed, %d inconclusive, %.1fs\n",
+		id, *tier, len(results), paths, disch, oblig, knownHits, violations, unconfirmed, len(inconcList)+len(errs), wall)
+	if violations > 0 {
+		return 1
+	}
+	return 0
+}
+
+func cmdSelftest(args []string) int { return 0 }
